@@ -25,7 +25,7 @@ package hist
 // Model evaluates the reference for one history.
 type Model struct {
 	H      *H
-	E      int64 // effective threshold in seconds (0 in the commit regime)
+	E      int64 // effective threshold in model ticks (0 in the commit regime)
 	strict []bool
 }
 
@@ -33,9 +33,9 @@ type Model struct {
 func NewModel(h *H) *Model {
 	m := &Model{H: h}
 	if h.Regime == Stamp {
-		m.E = h.Eps
+		m.E = h.Eps * h.TPS()
 		if h.EpsDefault {
-			m.E = 1800
+			m.E = 1800 * h.TPS()
 		}
 	}
 	m.strict = make([]bool, len(h.Children))
